@@ -92,9 +92,12 @@ AddedOf(b, a) ==      \* outpoints created in b that pay address a, in block ord
 RemovedOf(b, a) ==    \* outpoints spent in b whose output pays address a, in block order
   SelectSeq(SpendsSeq(b), LAMBDA o : Outs(o[1])[o[2]].a = a)
 
+\* the order inside a block's list is not observable (answers are sorted): both sides are compared sorted;
+\* an outpoint listed twice by the code still shows (the specification's list has no repetitions)
+SortPairs(s) == SortSeq(s, PairLess)
 DeltaProj(m, F(_, _)) ==
   LET bs == SortedSeq(InTree(m.T))
-      perBlock(b) == FoldLeft(LAMBDA acc, a : IF Len(F(b, a)) = 0 THEN acc ELSE Append(acc, <<b, a, F(b, a)>>),
+      perBlock(b) == FoldLeft(LAMBDA acc, a : IF Len(F(b, a)) = 0 THEN acc ELSE Append(acc, <<b, a, SortPairs(F(b, a))>>),
                               <<>>, [i \in 1..nad |-> i])
   IN FoldLeft(LAMBDA acc, b : acc \o perBlock(b), <<>>, bs)
 
